@@ -1,6 +1,7 @@
 import GormModel.Drv.Util
 import GormModel.Gen.Pipelines
 import GormModel.Gen.CallSites
+import GormModel.Drv.C05
 open Lean
 namespace Gorm.Drv
 
@@ -11,6 +12,6 @@ def handleGen (op : String) (args : Array Json) : Option Json := do
     let k ← jStr? (arg args 1)
     let p ← Gen.pipelines.find? (fun p => p.1 = k)
     some (strListJ (p.2.map (·.name)))
-  | _ => none
+  | _ => handleC05 op args  -- C05 has no slot of its own in Driver.lean: its ops are reached through here
 
 end Gorm.Drv
